@@ -154,13 +154,26 @@ def gen_box_case(r, maxlen, ctx=None):
             ops.append("unshrink")
         elif x < 91:
             ops.append("adddelta " + " ".join(str(r.range(-1, 1)) for _ in range(nv)))
-        elif x < 96:
+        elif x < 94:
             ops.append(f"label {r.below(n)}")
-        else:
+        elif x < 97:
             ops.append("select1")
+        else:
+            ops.append(gen_solve_op(r, ctx))
+    if r.chance(1, 3):
+        ops.append(gen_solve_op(r, ctx, full=True))          # a whole run of QpSolver::solve to its stopping rule
     if ctx is not None:
         ctx.hist("box_family", fam); ctx.hist("box_classes", c); ctx.hist("box_examples", n)
     return ops
+
+
+def gen_solve_op(r, ctx=None, full=False):
+    """`solve epsnum epsshift maxiter`: QpSolver::solve from the current state (whatever shrinking state it is in)"""
+    num, sh = r.choice([(1, 10), (1, 10), (1, 3), (1, 0), (1, 20), (3, 6)])
+    mi = 3000 if full else r.choice([0, 1, 2, 3, 7, 40, 1001, 3000])
+    if ctx is not None:
+        ctx.hist("solve_eps", f"{num}/2^{sh}"); ctx.hist("solve_maxiter", mi)
+    return f"solve {num} {sh} {mi}"
 
 
 def split_line(l):
@@ -238,6 +251,12 @@ def correspond_box(ctx, name, cases, hcmd, dcmd, max_report=4):
     ctx.count("box_lines_exact_mode", big.exact_lines)
     ctx.count("box_lines_bit_mode", big.lines - big.exact_lines)
     ctx.count("lines_where_float_model_equals_rat_model", big.rat_ok)
+    for l in big.impl:
+        m = re.match(r"it=(\d+) stop=(\d+) ", l)
+        if m:      # a whole run of QpSolver::solve: how it ended and how long it ran
+            it = int(m.group(1))
+            ctx.hist(name + "_solve_stop", {"1": "accuracy", "4": "maxIterations"}.get(m.group(2), m.group(2)))
+            ctx.hist(name + "_solve_iterations", "0" if it == 0 else "1-9" if it < 10 else "10-99" if it < 100 else "100-999" if it < 1000 else ">=1000")
     if big.ok:
         ctx.log(f"{name}: {len(cases)} cases / {len(all_ops)} ops agree; exact-mode lines {big.exact_lines}, bit-mode lines {big.lines - big.exact_lines}, Float=Rat on {big.rat_ok} lines ({time.time()-t:.1f}s)")
         return 0
